@@ -7,66 +7,210 @@ those of that partition.  Tie: real code vs compiled model on C05's graph famili
 x threshold lists, comparing every column, the per-threshold iteration traces from
 Splink's log, and the summary statistics; a union-find oracle decides the property
 on the real output.
+
+Inputs (generator audit): besides graphs x threshold lists, a case says HOW the call is made - the form of the two input
+tables (pandas / list of records / dict of columns / SplinkDataFrame / table name / a SplinkDataFrame Splink derived itself,
+whose templated name differs from its physical name), the column names (given or defaulted edge columns), further columns,
+edges with a NULL probability, thresholds given as ints / -0.0 / numpy floats / exact duplicates / extreme weights - and a
+*session* is 2-3 such calls on ONE database API object (tables re-registered under the same names with overwrite=True,
+the very same objects passed again, results kept and read again after the last call or dropped, a single-threshold
+clustering of the same tables kept across the multi-threshold call).
 """
 from __future__ import annotations
 
 import itertools
+import math
 import random
 
 from harness import core, graphs
 from harness.props import c05, c11_sql
 
 PROP = "C11"
+DEFAULT_COLS = ("my_id", "n_1", "n_2")
+ONE_SHOT_FORMS = ("raw_pandas", "raw_records", "raw_dict", "sdf_new", "name_new", "sdf_derived")
+SESSION_FORMS = ("raw_pandas", "raw_records", "sdf_new", "name_new", "sdf_derived", "sdf_same", "sdf_same", "name_same", "name_same", "sdf_derived_same")
 
 
-def run_impl(case: dict) -> dict:
-    from splink.internals.clustering import cluster_pairwise_predictions_at_multiple_thresholds
+# --------------------------------------------------------------------------- real code
+def _cols(case):
+    return tuple(case.get("cols") or DEFAULT_COLS)
+
+
+def _form(case):
+    return tuple(case.get("form") or ("raw_pandas", "raw_pandas"))
+
+
+def _null_edges(case):
+    return [tuple(e) for e in case.get("null_edges") or []]
+
+
+def _tables(case: dict):
+    """(node rows, node types, edge rows, edge types, node column, left, right): c05's table builder; edges with a NULL probability
+    are further rows of the edge table."""
+    st = dict(case, cols=_cols(case), edges=[tuple(e) for e in case["edges"]] + [(a, b, None) for a, b in _null_edges(case)])
+    return c05._fn_tables(st)
+
+
+def _materialise(api, rows, types, form: str, base: str, k: int):
+    """One input table in the requested form (c05._materialise) plus `sdf_derived`: a SplinkDataFrame that Splink computed itself from
+    a table of the caller, as the predictions of a Linker are: its templated name (__splink__df_predict) is not its physical name."""
+    from harness import impl
+
+    if form.startswith("sdf_derived"):
+        same = form.endswith("_same")
+        name = f"{base}_src" if same else f"{base}_src_{k}"
+        api.register_table(impl.typed_frame(rows, types), name, overwrite=same)
+        return api.sql_to_splink_dataframe_checking_cache(f"select * from {name}", "__splink__df_predict" if base.endswith("edges") else "__splink__df_concat")
+    return c05._materialise(api, rows, types, form, base, k)
+
+
+def _colname(c) -> str:
+    return str(getattr(c, "name", c)).strip('"`')
+
+
+def _read(case: dict, sdf) -> dict:
+    ids = case["ids"]
+    node_col = _cols(case)[0]
+    rows = sdf.as_record_dict()
+    key = {ids[i]: i for i in range(len(ids))}
+    if case["stats"]:
+        def num(x, f):
+            return None if x is None else f(x)
+
+        out = sorted(([float(r["threshold_match_probability"]), num(r["num_clusters"], int), num(r["max_cluster_size"], int), num(r["avg_cluster_size"], float),
+                       num(r.get("threshold_match_weight"), float)] for r in rows), key=lambda x: x[0])
+        return {"stats": [x[:4] for x in out], "stats_w": [x[4] for x in out]}
+    cols = [c for c in (_colname(c) for c in sdf.columns) if c != node_col]
+    table = {}
+    for r in rows:
+        table[key.get(r[node_col], -1)] = [key.get(r[c], -1) for c in cols]
+    return {"cols": cols, "table": sorted(table.items()), "n_rows": len(rows)}
+
+
+def threshold_list(case: dict) -> list:
+    ts = list(case["ts"])
+    if case.get("ts_form") == "npfloat":
+        import numpy as np
+
+        ts = [np.float64(t) for t in ts]  # what list(np.linspace(..)) / list(np.arange(..)) hold: a subclass of float
+    return ts
+
+
+def _call(api, case: dict, k: int, prev_args, ts_obj=None):
+    """One call of cluster_pairwise_predictions_at_multiple_thresholds; returns (result dict, the returned SplinkDataFrame, the input
+    objects, a kept single-threshold result or None).  `ts_obj`: the caller's own list of thresholds (a session passes the SAME list
+    object to every call that asks for the same thresholds)."""
+    from splink.internals.clustering import cluster_pairwise_predictions_at_multiple_thresholds, cluster_pairwise_predictions_at_threshold
 
     from harness import impl
 
-    api = impl.make_api(case["engine"], threads=2)
-    ids = case["ids"]
-    n = len(ids)
-    rng = random.Random(case.get("shuffle", 0))
-    node_order = list(range(n))
-    rng.shuffle(node_order)
-    edges = list(case["edges"])
-    rng.shuffle(edges)
-    idt = "str" if isinstance(ids[0], str) else "int"
-    nodes_df = impl.typed_frame([{"my_id": ids[i]} for i in node_order], {"my_id": idt})
-    edges_df = impl.typed_frame(
-        [{"n_1": ids[a], "n_2": ids[b], "match_probability": p} for a, b, p in edges],
-        {"n_1": idt, "n_2": idt, "match_probability": "float"},
-    )
-    kw = {"match_weight_thresholds" if case["weights"] else "match_probability_thresholds": list(case["ts"])}
+    nrows, ntypes, erows, etypes, node_col, left, right = _tables(case)
+    form = _form(case)
+    nodes = prev_args[0] if (form[0] == "reuse" and prev_args) else _materialise(api, nrows, ntypes, form[0], "user_nodes", k)
+    edges_in = prev_args[1] if (form[1] == "reuse" and prev_args) else _materialise(api, erows, etypes, form[1], "user_edges", k)
+    ts = ts_obj if ts_obj is not None else threshold_list(case)
+    kw = {"match_weight_thresholds" if case["weights"] else "match_probability_thresholds": ts}
+    ckw = {}
+    if left is not None:
+        ckw["edge_id_column_name_left"] = left
+    if right is not None:
+        ckw["edge_id_column_name_right"] = right
+    single = None
+    if case.get("fail_first"):
+        # a call that fails (on the same tables), then the call proper
+        bad = {"both": dict(match_probability_thresholds=[0.5], match_weight_thresholds=[0.0], **ckw), "empty": dict(match_probability_thresholds=[], **ckw),
+               "bad_column": dict(kw, **dict(ckw, edge_id_column_name_left="no_such_column"))}[case["fail_first"]]
+        try:
+            cluster_pairwise_predictions_at_multiple_thresholds(nodes, edges_in, api, node_col, output_cluster_summary_stats=case["stats"], **bad)
+        except Exception:  # noqa: BLE001  expected; what matters is the call after it
+            pass
+    if case.get("single_first"):
+        # the caller clusters the same tables at the lowest of the thresholds first and KEEPS that result
+        s = cluster_pairwise_predictions_at_threshold(nodes, edges_in, api, node_col, threshold_match_probability=min(probs_of(case)), **ckw)
+        single = (s, _read_single(case, s))
     with impl.capture_log(c05.CC_LOGGER) as msgs:
-        res = cluster_pairwise_predictions_at_multiple_thresholds(
-            nodes_df, edges_df, api, "my_id", edge_id_column_name_left="n_1", edge_id_column_name_right="n_2",
-            output_cluster_summary_stats=case["stats"], **kw,
-        )
-        rows = res.as_record_dict()
-    key = {ids[i]: i for i in range(n)}
-    if case["stats"]:
-        out = sorted(
-            (float(r["threshold_match_probability"]), int(r["num_clusters"]), int(r["max_cluster_size"]), float(r["avg_cluster_size"]))
-            for r in rows
-        )
-        return {"stats": out, "trace": impl.cc_trace(msgs)}
-    cols = [c for c in (rows[0].keys() if rows else []) if c != "my_id"]
-    table = {}
-    for r in rows:
-        table[key[r["my_id"]]] = [key.get(r[c], -1) for c in cols]
-    return {"cols": cols, "table": sorted(table.items()), "n_rows": len(rows), "trace": impl.cc_trace(msgs)}
+        res = cluster_pairwise_predictions_at_multiple_thresholds(nodes, edges_in, api, node_col, output_cluster_summary_stats=case["stats"], **kw, **ckw)
+        out = _read(case, res)
+    out["trace"] = impl.cc_trace(msgs)
+    return out, res, (nodes, edges_in), single
+
+
+def _read_single(case, sdf):
+    ids = case["ids"]
+    key = {ids[i]: i for i in range(len(ids))}
+    node_col = _cols(case)[0]
+    return sorted((key.get(r[node_col], -1), key.get(r["cluster_id"], -1)) for r in sdf.as_record_dict())
+
+
+def run_impl(case: dict) -> dict:
+    from harness import impl
+
+    api = impl.make_api(case["engine"], threads=2)
+    out, _, _, single = _call(api, case, 0, None)
+    if single is not None:
+        out["single"], out["single_again"] = single[1], _read_single(case, single[0])
+    return out
 
 
 run_impl_safe = core.safe(run_impl)
 
 
+def _same_inputs(a: dict, b: dict) -> bool:
+    """Could call b be made with the very table objects call a was made with?"""
+    keys = ("ids", "shuffle", "extra_cols", "idtype")
+    return (all(a.get(k) == b.get(k) for k in keys) and [tuple(e) for e in a["edges"]] == [tuple(e) for e in b["edges"]]
+            and _null_edges(a) == _null_edges(b) and _cols(a) == _cols(b))
+
+
+def run_session(sess: dict) -> dict:
+    """All calls of a session on ONE database API object.  Per call: the result read right after it and - for results the caller keeps -
+    read AGAIN after the last call; a result not kept is dropped by the caller right after reading it."""
+    from harness import impl
+
+    api = impl.make_api(sess["engine"], threads=2)
+    steps = sess["steps"]
+    outs, kept, singles = [], [], []
+    prev_args = None
+    ts_objs = {}  # the caller's threshold lists: calls asking for the same thresholds pass the very same list object
+    for pos, st in enumerate(steps):
+        try:
+            reusable = prev_args if (pos > 0 and _same_inputs(steps[pos - 1], st)) else None
+            ts_obj = ts_objs.setdefault(repr((st["ts"], st["weights"], st.get("ts_form"))), threshold_list(st))
+            out, res, prev_args, single = _call(api, st, st.get("k", pos), reusable, ts_obj)
+            if single is not None:
+                out["single"] = single[1]
+                singles.append((out, st, single[0]))
+            if st.get("keep", True):
+                kept.append((out, st, res))
+            else:
+                res.drop_table_from_database_and_remove_from_cache()
+            outs.append(out)
+        except Exception as e:  # noqa: BLE001
+            e.partial = {"failed_step": pos, "steps": outs}
+            raise
+    try:
+        for out, st, res in kept:
+            again = _read(st, res)
+            out["again_same"] = all(again.get(k) == out.get(k) for k in ("stats", "stats_w", "cols", "table", "n_rows"))
+            if not out["again_same"]:
+                out["again"] = again
+        for out, st, s in singles:
+            out["single_again"] = _read_single(st, s)
+    except Exception as e:  # noqa: BLE001
+        e.partial = {"failed_step": "re-reading a kept result after the last call", "steps": outs}
+        raise
+    return {"steps": outs}
+
+
+run_session_safe = core.safe(run_session)
+
+
+# --------------------------------------------------------------------------- oracle
 def probs_of(case):
     ts = list(case["ts"])
     if case["weights"]:
         ts = [(2.0**w) / (1.0 + 2.0**w) for w in ts]
-    return sorted(set(ts))
+    return sorted({float(t) for t in ts})  # 0, 0.0 and -0.0 (1 and 1.0) are one threshold
 
 
 def oracle(case: dict):
@@ -97,19 +241,53 @@ def split_traces(flat: list[int]) -> list[list[int]]:
     return out
 
 
+def column_threshold(name: str):
+    """('p' | 'w', value) denoted by a column name cluster_<threshold>, or None.  Read back naively: digits with '_' for the decimal
+    point, `neg_` for a minus sign, p_/mw_ for the form, 0_0 / 1_0 and mw_minus_inf / mw_inf for the ends."""
+    if not name.startswith("cluster_"):
+        return None
+    s = name[len("cluster_"):]
+    fixed = {"0_0": ("p", 0.0), "1_0": ("p", 1.0), "mw_minus_inf": ("w", -math.inf), "mw_inf": ("w", math.inf)}
+    if s in fixed:
+        return fixed[s]
+    try:
+        if s.startswith("p_"):
+            return "p", float(s[2:].replace("_", "."))
+        if s.startswith("mw_"):
+            body = s[3:]
+            neg = body.startswith("neg_")
+            v = float((body[4:] if neg else body).replace("_", "."))
+            return "w", (-v if neg else v)
+    except ValueError:
+        return None
+    return None
+
+
+def weight_of(p: float):
+    return -math.inf if p == 0.0 else math.inf if p == 1.0 else math.log2(p / (1.0 - p))
+
+
 def verdict(case: dict, r: dict) -> str | None:
     n = len(case["ids"])
     want = oracle(case)
+    probs = probs_of(case)
     if case["stats"]:
         if len(r["stats"]) != len(want):
             return f"summary has {len(r['stats'])} rows for {len(want)} distinct thresholds"
-        for (tp, num, mx, avg), w in zip(r["stats"], want):
+        for k, ((tp, num, mx, avg), w, t) in enumerate(zip(r["stats"], want, probs)):
             sizes = {}
             for i in range(n):
                 sizes[w[i]] = sizes.get(w[i], 0) + 1
-            exp = (len(sizes), max(sizes.values()), n / len(sizes))
+            exp = (len(sizes), max(sizes.values()), n / len(sizes)) if n else (0, None, None)
             if num != exp[0] or mx != exp[1] or not core.close(avg, exp[2], 1e-6):
                 return f"summary statistics differ at threshold {tp}: got (count={num}, max={mx}, mean={avg}) expected {exp}"
+            # the row must be labelled with its threshold (cast(.. as float) is a 32-bit float on DuckDB: 1e-6 relative)
+            if abs(tp - t) > 1e-6 * abs(t):
+                return f"summary row labelled with another threshold: row #{k} says threshold_match_probability {tp}, the thresholds are {probs}"
+            if "stats_w" in r:
+                tw, ew = r["stats_w"][k], weight_of(t)
+                if (tw is None) != math.isinf(ew) or (tw is not None and not core.close(tw, ew, 1e-6, 1e-6)):
+                    return f"summary row labelled with another threshold: row #{k} (probability {tp}) says threshold_match_weight {tw}, expected {None if math.isinf(ew) else ew}"
         return None
     if r["n_rows"] != n or [i for i, _ in r["table"]] != list(range(n)):
         return f"records not returned exactly once ({r['n_rows']} rows for {n} nodes)"
@@ -119,6 +297,28 @@ def verdict(case: dict, r: dict) -> str | None:
         for i, vals in r["table"]:
             if vals[k] != w[i]:
                 return f"partition differs at threshold #{k}: column {r['cols'][k]} gives node {i} cluster {vals[k]}, clustering at that threshold alone gives {w[i]}"
+    for k, (name, t) in enumerate(zip(r["cols"], probs)):
+        got = column_threshold(name)
+        exp = ("w", weight_of(t)) if case["weights"] else ("p", t)
+        if got is None or got[0] != exp[0] or not (got[1] == exp[1] or abs(got[1] - exp[1]) <= 6e-7):
+            return f"column named after another threshold: column #{k} is {name}, the threshold is {'weight' if case['weights'] else 'probability'} {exp[1]}"
+    return None
+
+
+def call_verdict(case: dict, r: dict) -> str | None:
+    """verdict() plus what a session / a kept single-threshold result adds."""
+    v = verdict(case, r)
+    if v is not None:
+        return v
+    if r.get("again_same") is False:
+        return "result kept by the caller changed under a later call: " + (verdict(case, dict(r, **r["again"])) or "it still satisfies the property but reads differently")
+    if "single" in r:
+        c = dict(case, thr=min(probs_of(case)), thr_kind="prob", entry="fn")
+        for which in ("single", "single_again"):
+            if which in r:
+                v = c05.oracle_verdict(c, r[which])
+                if v is not None:
+                    return ("single-threshold result kept by the caller changed under the multi-threshold call: " if which == "single_again" else "single-threshold clustering before the call: ") + v
     return None
 
 
@@ -128,21 +328,135 @@ def model_request(case):
     rank = [0] * len(keys)
     for rk, i in enumerate(order):
         rank[i] = rk
+    # edges with a NULL probability pass no threshold: the model is given the graph without them
     return {"op": "multi", "n": len(keys), "edges": [[rank[a], rank[b], core.f2b(p)] for a, b, p in case["edges"]],
             "ts": [core.f2b(t) for t in case["ts"]], "weights": bool(case["weights"])}, order
 
 
+# --------------------------------------------------------------------------- generators
 def gen_thresholds(rng, edges):
+    """1..6 probabilities, unsorted: equal to edge probabilities, the ends of [0, 1] in every spelling (0, 0.0, -0.0, 1, 1.0), 0.5,
+    one step (1e-6) beside an edge probability, random; sometimes with an exact duplicate.  Distinct values stay distinct after
+    6-decimal formatting (the column names)."""
     ps = sorted({p for _, _, p in edges})
     k = rng.randint(1, 6)
-    pool = list(ps) + [0.0, 1.0] + [round(rng.random(), rng.choice([1, 2, 4])) for _ in range(4)]
     ts = []
     for _ in range(k):
-        t = rng.choice(pool)
-        if all(f"{t:.6f}" != f"{u:.6f}" for u in ts):
+        r = rng.random()
+        if r < 0.45 and ps:
+            t = rng.choice(ps)
+        elif r < 0.6:
+            t = rng.choice([0.0, 1.0, 0, 1, -0.0, 0.5])
+        elif r < 0.72 and ps:
+            t = min(1.0, max(0.0, round(rng.choice(ps) + rng.choice([-1e-6, 1e-6]), 6)))
+        else:
+            t = round(rng.random(), rng.choice([1, 2, 4]))
+        if all(f"{abs(t):.6f}" != f"{abs(u):.6f}" for u in ts):
             ts.append(t)
+    if len(ts) < 6 and rng.random() < 0.12:
+        u = rng.choice(ts)
+        ts.append(rng.choice([0, 0.0, -0.0]) if u == 0 else rng.choice([1, 1.0]) if u == 1 else u)  # the same threshold listed twice
     rng.shuffle(ts)
     return ts
+
+
+def gen_weights(rng):
+    """1..6 match weights, unsorted: random, ints, 0 in every spelling, weights whose probability rounds to exactly 1.0 (60, 70: the same
+    threshold twice) / to 0.0 (-1100) / is ~1e-18 (-60); sometimes an exact duplicate."""
+    ts = {round(rng.uniform(-6, 6), 2) for _ in range(rng.randint(1, 6))}
+    if rng.random() < 0.35:
+        ts.add(rng.choice([0, 0.0, -0.0]))
+    if rng.random() < 0.2:
+        ts.add(rng.randint(-5, 5))
+    ts = sorted(ts)
+    if rng.random() < 0.2:
+        ts += rng.sample([60, -60.0, 70, -1100], rng.randint(1, 2))
+    if len(ts) < 6 and rng.random() < 0.1:
+        ts.append(rng.choice(ts))
+    rng.shuffle(ts)
+    return ts
+
+
+def pick_thresholds(rng, case):
+    weights = rng.random() < 0.25
+    return (gen_weights(rng) if weights else gen_thresholds(rng, case["edges"])), weights
+
+
+def pick_call_shape(rng, case, forms=ONE_SHOT_FORMS):
+    """How the call is made: column names (given / defaulted edge columns), further columns, form of the two tables, spelling of the floats."""
+    case["cols"] = DEFAULT_COLS if rng.random() < 0.55 else rng.choice(c05.FN_COLS)
+    case["extra_cols"] = rng.random() < 0.25
+    if rng.random() < 0.5:
+        case["form"] = ("raw_pandas", "raw_pandas")
+    else:
+        f = rng.choice(forms)
+        case["form"] = (f, f if rng.random() < 0.7 else rng.choice(forms))
+    case["ts_form"] = "npfloat" if rng.random() < 0.1 else "list"
+
+
+def pick_data_values(rng, case):
+    """Edges with probability exactly 0.0 and edges whose probability is NULL (they pass no threshold)."""
+    n = len(case["ids"])
+    if case["edges"] and rng.random() < 0.1:
+        for _ in range(rng.randint(1, 2)):
+            j = rng.randrange(len(case["edges"]))
+            a, b, _p = case["edges"][j]
+            case["edges"][j] = (a, b, 0.0)
+    if n >= 2 and rng.random() < 0.12:
+        case["null_edges"] = [tuple(rng.sample(range(n), 2)) for _ in range(rng.randint(1, 3))]
+
+
+def gen_session(rng, engine) -> dict:
+    """2-3 calls on one database API object: the same nodes with other edges / the same data / other data, the same or other thresholds
+    and output kind, tables under fresh names or re-registered under the same names (overwrite=True) or the very same objects again,
+    results kept (read again at the end) or dropped."""
+    nsteps = rng.choice([2, 2, 3])
+    same_nodes, same_ts, same_form, same_shape = rng.random() < 0.6, rng.random() < 0.6, rng.random() < 0.75, rng.random() < 0.8
+    idtype = rng.choice(["int", "int", "str", "strmixed"])
+    probs = rng.choice(["grid", "grid", "rand"])
+    steps = []
+    for k in range(nsteps):
+        prev = steps[-1] if steps else None
+        n = rng.randint(2, 16) if rng.random() < 0.15 else rng.randint(2, 8)
+        repeat = prev is not None and rng.random() < 0.25
+        if repeat:
+            st = dict(prev)
+        elif prev is not None and same_nodes:
+            st = dict(prev)
+            st["edges"] = c05.noisy_edges(rng, len(prev["ids"]), c05.small_graph(rng, len(prev["ids"])), probs)
+            st["shuffle"] = rng.randrange(1 << 30)
+            st.pop("null_edges", None)
+            pick_data_values(rng, st)
+        else:
+            st = c05.decorate(rng, n, c05.small_graph(rng, n), engine=engine, entry="fn", order=rng.choice(["random", "identity", "reversed"]),
+                              idtype=idtype, probs=probs, thr=None, tag="session")
+            pick_data_values(rng, st)
+        st["k"] = k
+        if prev is not None and (same_ts or (repeat and rng.random() < 0.5)):
+            st["ts"], st["weights"] = prev["ts"], prev["weights"]
+            st["stats"] = prev["stats"] if rng.random() < 0.75 else not prev["stats"]
+        else:
+            st["ts"], st["weights"] = pick_thresholds(rng, st)
+            st["stats"] = rng.random() < 0.3
+        if prev is None or not (same_shape or repeat):
+            pick_call_shape(rng, st, SESSION_FORMS)
+            f = rng.choice(SESSION_FORMS)
+            st["form"] = (f, f if rng.random() < 0.75 else rng.choice(SESSION_FORMS))
+        else:
+            for kk in ("cols", "extra_cols", "ts_form"):
+                st[kk] = prev[kk]
+            if repeat and rng.random() < 0.6:
+                st["form"] = ("reuse", "reuse")  # the very objects of the previous call
+            elif same_form and prev["form"][0] != "reuse":
+                st["form"] = prev["form"]
+            else:
+                f = rng.choice(SESSION_FORMS)
+                st["form"] = (f, f if rng.random() < 0.75 else rng.choice(SESSION_FORMS))
+        st["keep"] = rng.random() < 0.7
+        st["single_first"] = rng.random() < 0.25
+        st["fail_first"] = rng.choice(["both", "empty", "bad_column"]) if rng.random() < 0.2 else None
+        steps.append(st)
+    return {"session": True, "engine": engine, "steps": steps, "tag": "session", "ids": steps[0]["ids"], "edges": steps[0]["edges"]}
 
 
 def gen_cases(ctx):
@@ -151,13 +465,10 @@ def gen_cases(ctx):
 
     def mk(n, pairs, tag, order="random", probs=None):
         base = c05.decorate(rng, n, pairs, engine=rng.choice(["duckdb", "sqlite"]), entry="fn", order=order, probs=probs or rng.choice(["grid", "rand", "grid"]), thr=None, tag=tag)
-        weights = rng.random() < 0.25
-        if weights:
-            ts = sorted({round(rng.uniform(-6, 6), 2) for _ in range(rng.randint(1, 6))} | ({rng.choice([0, 0.0, -0.0])} if rng.random() < 0.35 else set()))
-            rng.shuffle(ts)
-        else:
-            ts = gen_thresholds(rng, base["edges"])
+        pick_data_values(rng, base)
+        ts, weights = pick_thresholds(rng, base)
         base.update(ts=ts, weights=weights, stats=rng.random() < 0.3)
+        pick_call_shape(rng, base)
         return base
 
     # exhaustive sub-domain: every labelled graph on <=4 nodes, edge probabilities from a rotating 3-value set,
@@ -173,7 +484,7 @@ def gen_cases(ctx):
                 for sub in itertools.combinations(ps, r):
                     ts = list(sub)
                     rng.shuffle(ts)
-                    cases.append({"n": n, "ids": [3 * ((i * 7 + gi) % n) + 1 for i in range(n)] if False else list(range(n)), "edges": edges,
+                    cases.append({"n": n, "ids": list(range(n)), "edges": edges,
                                   "engine": "sqlite" if len(cases) % 2 else "duckdb", "entry": "fn", "shuffle": len(cases), "tag": f"exh{n}",
                                   "ts": ts, "weights": False, "stats": False, "idtype": "int", "order": "identity"})
     if not ctx.thorough:
@@ -185,12 +496,133 @@ def gen_cases(ctx):
         fam = rng.choice(["path", "cycle", "star", "cliques", "caterpillar", "gnp", "gnp", "forest", "grid"])
         n = rng.randint(2, nmax)
         cases.append(mk(n, graphs.family(rng, fam, n), fam, order=rng.choice(["identity", "reversed", "bitrev", "zigzag", "random"])))
+    # the smallest inputs: an empty nodes table, a single record, an empty edges table
+    for i in range(ctx.budget(24, 200)):
+        n = [0, 1, 2, rng.randint(2, 6)][i % 4]
+        c = mk(n, [], "tiny")
+        if n >= 2 and rng.random() < 0.4:
+            c["edges"] = [(0, 1, rng.choice([0.0, 0.5, 1.0]))]
+        if not c["weights"]:
+            c["ts"] = gen_thresholds(rng, c["edges"])
+        cases.append(c)
+    # fine-grained: edge probabilities half a unit of the 6th decimal apart (9 decimals), thresholds one unit of the 6th decimal apart
+    # (the finest the column names tell apart), on and between the edge probabilities
+    for _ in range(ctx.budget(36, 300)):
+        n = rng.randint(3, 10)
+        c = mk(n, graphs.family(rng, rng.choice(["path", "cycle", "gnp", "star"]), n), "fine_thr")
+        base = rng.choice([0.95, 0.5, 0.999998, 0.1234])
+        grid = [min(1.0, round(base + k * 5e-7, 9)) for k in range(-4, 5)]
+        c["edges"] = [(a, b, rng.choice(grid)) for a, b, _ in c["edges"]]
+        tgrid = sorted({min(1.0, round(base + j * 1e-6, 6)) for j in range(-2, 3)})
+        c["ts"] = rng.sample(tgrid, rng.randint(2, len(tgrid))) + ([rng.choice([0, 1.0])] if rng.random() < 0.3 else [])
+        c["weights"] = False
+        cases.append(c)
+    # sessions: 2-3 calls on ONE database API object
+    for _ in range(ctx.budget(56, 500)):
+        cases.append(gen_session(rng, rng.choice(["duckdb", "sqlite"])))
     return cases
 
 
+# --------------------------------------------------------------------------- comparison
+CANON_KEYS = ("ids", "edges", "null_edges", "ts", "weights", "stats", "engine", "cols", "extra_cols", "form", "ts_form")
+
+
+def _n_bucket(n):
+    return "0" if n == 0 else "1" if n == 1 else "2-4" if n <= 4 else "5-12" if n <= 12 else "13-30" if n <= 30 else ">30"
+
+
+def count_inputs(ctx, c):
+    ctx.count("family", c["tag"]); ctx.count("engine", c["engine"]); ctx.count("n_thresholds", len(c["ts"]))
+    ctx.count("form", "weights" if c["weights"] else "probabilities"); ctx.count("output", "stats" if c["stats"] else "columns")
+    ctx.count("n_nodes", _n_bucket(len(c["ids"])))
+    ctx.count("edge_table", "empty" if not c["edges"] and not _null_edges(c) else "rows")
+    ctx.count("column_names", "/".join(str(x) for x in _cols(c)))
+    ctx.count("extra_columns", bool(c.get("extra_cols")))
+    ctx.count("nodes_form", _form(c)[0]); ctx.count("edges_form", _form(c)[1])
+    ctx.count("threshold_floats", c.get("ts_form", "list"))
+    ts = c["ts"]
+    if any(isinstance(t, int) and not isinstance(t, bool) for t in ts):
+        ctx.count("threshold_values", "an int in the list")
+    if any(isinstance(t, float) and t == 0 and math.copysign(1.0, t) < 0 for t in ts):
+        ctx.count("threshold_values", "-0.0 in the list")
+    if len({float(t) for t in ts}) < len(ts):
+        ctx.count("threshold_values", "the same threshold listed twice")
+    probs = probs_of(c)
+    if len(probs) < len({float(t) for t in ts}):
+        ctx.count("threshold_values", "two weights with the same probability")
+    if 0.0 in probs:
+        ctx.count("threshold_values", "probability 0")
+    if 1.0 in probs:
+        ctx.count("threshold_values", "probability 1")
+    if c["weights"] and any(abs(t) >= 50 for t in ts):
+        ctx.count("threshold_values", "weight beyond +-50")
+    eps = {p for _, _, p in c["edges"]}
+    if any(t in eps for t in probs):
+        ctx.count("threshold_values", "equal to an edge probability")
+    if any(0 < abs(t - p) <= 1.01e-6 for t in probs for p in eps):
+        ctx.count("threshold_values", "within 1e-6 of an edge probability")
+    if _null_edges(c):
+        ctx.count("edge_values", "NULL probability")
+    if 0.0 in eps:
+        ctx.count("edge_values", "probability 0.0")
+    if 1.0 in eps:
+        ctx.count("edge_values", "probability 1.0")
+
+
+def judge(ctx, c, order, r, m, owner, problems, sql_items):
+    """One call: oracle on the real output, then real output vs Lean model.  `owner` = what a problem is reported for (the case / its session)."""
+    n = len(c["ids"])
+    if "error" in m and ctx.lean.ok:
+        raise core.HarnessError("model driver error: " + m["error"])
+    if fragile(c):
+        ctx.count("excluded", "weight threshold within 1e-12 of an edge probability / SQLite misreads a threshold literal")
+        return
+    v = call_verdict(c, r)
+    if v is not None:
+        problems.append((owner, v, True))
+        return
+    sql_items.append((c, order, r))
+    if "error" in m:
+        # the translated part of the model could not be regenerated from the current source (already recorded as a broken
+        # obligation): no model answer; the independent oracle above still decides the property on the real output
+        ctx.count("model_unavailable", m["error"][:80])
+        return
+    # model vs impl
+    mcols = [sorted((order[a], order[b]) for a, b in res_["rows"]) for res_ in m["results"]]
+    # the model keeps one entry per listed threshold; the code keeps one per distinct value (0.0 and -0.0 are one value)
+    seen, mdistinct, mstats = set(), [], []
+    for res_, rows in zip(m["results"], mcols):
+        tv = core.b2f(res_["t"])
+        if tv in seen:
+            continue
+        seen.add(tv)
+        mdistinct.append(rows)
+        mstats.append((res_["num"], res_["max"], res_["total"]))
+    if c["stats"]:
+        got = [(num, mx if n else (mx or 0)) for _, num, mx, _ in r["stats"]]  # MAX over no cluster is NULL in SQL, 0 in the model
+        if got != [(a, b) for a, b, _ in mstats]:
+            problems.append((owner, f"summary statistics differ from Lean model: impl {got} model {mstats}", False))
+            return
+    else:
+        icol = [sorted((i, vals[k]) for i, vals in r["table"]) for k in range(len(r["cols"]))]
+        if icol != mdistinct:
+            problems.append((owner, "cluster columns differ from Lean model MultiThreshold.multi (real output still satisfies the property)", False))
+            return
+    mtr = [t for t in m["traces"]]
+    itr = split_traces(r["trace"])
+    if itr != mtr:
+        problems.append((owner, f"per-threshold iteration traces differ from Lean model: impl {itr[:6]} model {mtr[:6]}", False))
+        return
+    ctx.traces_validated += 1
+
+
 def compare(ctx, cases, drv):
-    reqs, orders = zip(*[model_request(c) for c in cases]) if cases else ([], [])
+    sessions = [c for c in cases if c.get("session")]
+    cases = [c for c in cases if not c.get("session")]
+    calls = cases + [st for s in sessions for st in s["steps"]]
+    reqs, orders = zip(*[model_request(c) for c in calls]) if calls else ([], [])
     res = core.pmap(run_impl_safe, cases, chunksize=2)
+    sres = core.pmap(run_session_safe, sessions, chunksize=1)
     mres = drv.pbatch(list(reqs))
     problems = []
     sql_items = []  # cases on which the regenerated SQL (T-sql) is evaluated by Rel.eval and compared with the engine
@@ -198,76 +630,128 @@ def compare(ctx, cases, drv):
         n = len(c["ids"])
         want = oracle(c)
         changes = sum(1 for a, b in zip(want, want[1:]) if a != b)
-        ctx.case({k: c[k] for k in ("ids", "edges", "ts", "weights", "stats", "engine")}, changes >= 1 and len(want) >= 2,
-                 sample={"case": {k: c[k] for k in ("ids", "edges", "ts", "weights", "stats", "engine", "tag")} if n <= 6 else {"tag": c["tag"], "n": n, "ts": c["ts"], "weights": c["weights"], "stats": c["stats"]},
+        ctx.case({k: c.get(k) for k in CANON_KEYS}, changes >= 1 and len(want) >= 2,
+                 sample={"case": {k: c.get(k) for k in CANON_KEYS + ("tag",)} if n <= 6 else {"tag": c["tag"], "n": n, "ts": c["ts"], "weights": c["weights"], "stats": c["stats"]},
                          "impl": (r.get("table") or r.get("stats")) if n <= 6 and isinstance(r, dict) else None})
-        ctx.count("family", c["tag"]); ctx.count("engine", c["engine"]); ctx.count("n_thresholds", len(c["ts"]))
-        ctx.count("form", "weights" if c["weights"] else "probabilities"); ctx.count("output", "stats" if c["stats"] else "columns")
+        count_inputs(ctx, c)
         ctx.count("partition_changes_between_thresholds", changes)
         if core.impl_error(r):
             ctx.count("impl_error", r["__error__"])
             problems.append((c, f"real code raised {r['__error__']}: {r['text'][:300]}", True))
             continue
-        if "error" in m and ctx.lean.ok:
-            raise core.HarnessError("model driver error: " + m["error"])
-        if fragile(c):
-            ctx.count("excluded", "weight threshold within 1e-12 of an edge probability / SQLite misreads a threshold literal")
+        judge(ctx, c, order, r, m, c, problems, sql_items)
+    pos = len(cases)
+    for s, r in zip(sessions, sres):
+        steps = s["steps"]
+        ms, os_ = mres[pos: pos + len(steps)], orders[pos: pos + len(steps)]
+        pos += len(steps)
+        ctx.count("session_calls", len(steps)); ctx.count("session_engine", s["engine"])
+        for k, st in enumerate(steps):
+            want = oracle(st)
+            changes = sum(1 for a, b in zip(want, want[1:]) if a != b)
+            ctx.case({"session_call": k, "of": [{kk: x.get(kk) for kk in CANON_KEYS + ("keep", "single_first", "fail_first")} for x in steps[: k + 1]]}, changes >= 1 and len(want) >= 2 and k > 0, sample=None)
+            count_inputs(ctx, st)
+            ctx.count("partition_changes_between_thresholds", changes)
+            ctx.count("session_result", "kept and read again after the last call" if st.get("keep", True) else "dropped by the caller")
+            ctx.count("session_single_threshold_result_kept_across_the_call", bool(st.get("single_first")))
+            ctx.count("session_failed_call_first", st.get("fail_first") or "no")
+            if k > 0 and any((x["ts"], x["weights"], x.get("ts_form")) == (st["ts"], st["weights"], st.get("ts_form")) for x in steps[:k]):
+                ctx.count("session_same_threshold_list_object_passed_again", True)
+            if k > 0:
+                p = steps[k - 1]
+                same_edges = [tuple(e) for e in p["edges"]] == [tuple(e) for e in st["edges"]] and _null_edges(p) == _null_edges(st)
+                ctx.count("session_data_vs_previous_call", "same" if same_edges and p["ids"] == st["ids"] else "same nodes, other edges" if p["ids"] == st["ids"] else "other nodes and edges")
+                ctx.count("session_thresholds_vs_previous_call", "same" if (p["ts"], p["weights"]) == (st["ts"], st["weights"]) else "differ")
+                ctx.count("session_output_vs_previous_call", "same" if p["stats"] == st["stats"] else "differ")
+                for which, f in zip(("nodes", "edges"), _form(st)):
+                    if f.endswith("_same") and any(_form(x)[which == "edges"] == f for x in steps[:k]):
+                        changed = not (same_edges if which == "edges" else p["ids"] == st["ids"])
+                        ctx.count(f"session_{which}_re_registered_under_the_same_name", "other content" if changed else "same content")
+        if len(steps) > 1 and sum(1 for x in ctx.samples if isinstance(x, dict) and "session" in x) < 1:
+            ctx.samples.append({"session": {"engine": s["engine"], "calls": [{kk: st.get(kk) for kk in CANON_KEYS + ("keep", "single_first", "fail_first")} for st in steps]},
+                                "impl": r.get("steps") if isinstance(r, dict) and max(len(st["ids"]) for st in steps) <= 8 else None})
+        if core.impl_error(r):
+            ctx.count("impl_error", r["__error__"])
+            problems.append((s, f"call {(r.get('partial') or {}).get('failed_step')}: real code raised {r['__error__']}: {r['text'][:300]}", True))
             continue
-        v = verdict(c, r)
-        if v is not None:
-            problems.append((c, v, True))
-            continue
-        sql_items.append((c, order, r))
-        if "error" in m:
-            # the translated part of the model could not be regenerated from the current source (already recorded as a broken
-            # obligation): no model answer; the independent oracle above still decides the property on the real output
-            ctx.count("model_unavailable", m["error"][:80])
-            continue
-        # model vs impl
-        mcols = [sorted((order[a], order[b]) for a, b in res_["rows"]) for res_ in m["results"]]
-        # the model keeps one entry per listed threshold; the code keeps one per distinct value
-        seen, mdistinct, mstats = set(), [], []
-        for res_, rows in zip(m["results"], mcols):
-            if res_["t"] in seen:
-                continue
-            seen.add(res_["t"])
-            mdistinct.append(rows)
-            mstats.append((res_["num"], res_["max"], res_["total"]))
-        if c["stats"]:
-            got = [(num, mx) for _, num, mx, _ in r["stats"]]
-            if got != [(a, b) for a, b, _ in mstats]:
-                problems.append((c, f"summary statistics differ from Lean model: impl {got} model {mstats}", False))
-                continue
-        else:
-            icol = [sorted((i, vals[k]) for i, vals in r["table"]) for k in range(len(r["cols"]))]
-            if icol != mdistinct:
-                problems.append((c, "cluster columns differ from Lean model MultiThreshold.multi (real output still satisfies the property)", False))
-                continue
-        mtr = [t for t in m["traces"]]
-        # one trace per listed threshold in the model; duplicates of a threshold are not re-run by the code?  They are: compare flat
-        itr = split_traces(r["trace"])
-        if itr != mtr:
-            problems.append((c, f"per-threshold iteration traces differ from Lean model: impl {itr[:6]} model {mtr[:6]}", False))
-            continue
-        ctx.traces_validated += 1
-    problems += [(c, w, conc) for c, w, conc, _ in c11_sql.validate(ctx, sql_items, drv)]
+        for k, (st, order, m) in enumerate(zip(steps, os_, ms)):
+            before = len(problems)
+            judge(ctx, st, order, r["steps"][k], m, s, problems, sql_items)
+            if len(problems) > before:
+                c_, w, conc = problems[-1]
+                problems[-1] = (c_, f"call {k + 1} of {len(steps)}: {w}", conc)
+                break
+    # T-sql sees the graph the thresholds see: an edge with a NULL probability is in no statement's result
+    problems += [(c, w, conc) for c, w, conc, _ in c11_sql.validate(ctx, [it for it in sql_items if not _null_edges(it[0])], drv)]
     return problems
 
 
+# --------------------------------------------------------------------------- reporting
 def impl_fails(case) -> bool:
     r = run_impl_safe(case)
-    return "__error__" in r or verdict(case, r) is not None
+    return "__error__" in r or call_verdict(case, r) is not None
+
+
+def session_fails(sess):
+    """None or (index of the failing call | None, description)."""
+    r = run_session_safe(sess)
+    if "__error__" in r:
+        k = (r.get("partial") or {}).get("failed_step")
+        return (k if isinstance(k, int) else None), f"real code raised {r['__error__']}: {r.get('text', '')[:200]}", r
+    for k, (st, out) in enumerate(zip(sess["steps"], r["steps"])):
+        if fragile(st):
+            continue
+        v = call_verdict(st, out)
+        if v is not None:
+            return k, v, r
+    return None
+
+
+def simplify(case: dict, fails) -> dict:
+    """Greedy: default call shape first (one option at a time), then c05's shrinking of edges and nodes."""
+    cur = dict(case)
+    for key, val in (("null_edges", []), ("single_first", False), ("fail_first", None), ("form", ("raw_pandas", "raw_pandas")), ("cols", DEFAULT_COLS), ("extra_cols", False), ("ts_form", "list")):
+        if cur.get(key) not in (None, val):
+            cand = dict(cur, **{key: val})
+            if fails(cand):
+                cur = cand
+    if not _null_edges(cur) and len(cur["ids"]) <= 60:
+        cur = c05.shrink(cur, fails)
+    return cur
+
+
+def shrink_session(sess: dict) -> dict:
+    cur = dict(sess)
+    budget = 12
+    changed = True
+    while changed and budget > 0 and len(cur["steps"]) > 1:
+        changed = False
+        for k in range(len(cur["steps"]) - 1, -1, -1):
+            if len(cur["steps"]) <= 1 or budget <= 0:
+                break
+            cand = dict(cur, steps=cur["steps"][:k] + cur["steps"][k + 1:])
+            budget -= 1
+            if session_fails(cand) is not None:
+                cur, changed = cand, True
+    return cur
 
 
 def run(ctx: core.Ctx):
     ctx.rule = (
         "cases = every labelled graph on 2..4 nodes with edge probabilities from a rotating 3-value set x every non-empty subset of the distinct "
         "edge probabilities as threshold list (exhaustive in thorough, a 250-case sample in quick) + C05's structured families (<=30/60 nodes) x threshold lists "
-        "of length 1..6 (values equal to edge probabilities, 0, 1, random; unsorted; weight form 25%), summary-statistics output 30%; duckdb+sqlite. "
-        "non-trivial = >=2 distinct thresholds and the partition changes between two consecutive ones; distinct = hash of (ids, edges, thresholds, form, output, engine)."
+        "of length 1..6 (values equal to edge probabilities, one 1e-6 step beside them, 0 / 0.0 / -0.0 / 1 / 1.0 / 0.5, random; unsorted; exact duplicates; "
+        "weight form 25% incl. ints, 0 / -0.0, +-60, 70, -1100), summary-statistics output 30%; edges with probability 0.0 / NULL; the smallest inputs "
+        "(empty nodes table, one record, empty edges table); fine-grained probabilities (5e-7 apart) x thresholds 1e-6 apart; every call in one of the "
+        "accepted input forms (pandas / list of records / dict of columns / SplinkDataFrame / table name / Splink-derived SplinkDataFrame whose templated "
+        "name is not its physical name) with given or defaulted edge column names and optional further columns, thresholds as floats or numpy floats; "
+        "sessions = 2-3 calls on ONE database API (same / other data, thresholds, output kind; tables under fresh names, re-registered under the same "
+        "names with overwrite=True, or the very same objects again; results kept and read again after the last call, or dropped; a single-threshold "
+        "clustering of the same tables kept across the call); duckdb+sqlite. "
+        "non-trivial = >=2 distinct thresholds and the partition changes between two consecutive ones; distinct = hash of (ids, edges, thresholds, form, output, engine, call shape)."
     )
     ctx.assumptions = [
-        "thresholds pairwise distinct after 6-decimal formatting (column names), edge endpoints are nodes, ids distinct and non-NULL",
+        "distinct thresholds stay distinct after 6-decimal formatting (column names), edge endpoints are nodes, ids distinct and non-NULL",
         "weight thresholds whose probability lies within 1e-12 of an edge probability are excluded (floating point)",
     ]
     from harness.translate import tarith
@@ -283,7 +767,8 @@ def run(ctx: core.Ctx):
         import json
 
         case = json.loads(open(ctx.replay).read())["replay"]["case"]
-        case["edges"] = [tuple(e) for e in case["edges"]]
+        for c in [case] + list(case.get("steps", [])):
+            c["edges"] = [tuple(e) for e in c["edges"]]
         cases = [case]
     else:
         cases = graphs.load_corpus(PROP) + gen_cases(ctx)
@@ -295,16 +780,34 @@ def run(ctx: core.Ctx):
         ctx.rng = random.Random(ctx.seed + 7919)
         was, ctx.thorough = ctx.thorough, True
         try:
-            more = gen_cases(ctx)[:2500]
+            more = gen_cases(ctx)
+            more = [c for c in more if not c.get("session")][:2300] + [c for c in more if c.get("session")][:200]
         finally:
             ctx.thorough, ctx.rng = was, save
         problems += compare(ctx, more, drv)
     concrete = [(c, w) for c, w, conc in problems if conc]
     broken = [(c, w) for c, w, conc in problems if not conc]
-    for c, w in concrete[:3]:
-        small = c05.shrink(c, impl_fails) if len(c["ids"]) <= 60 else c
+    reported = {"single": 0, "session": 0}
+    for c, w in concrete:
+        if c.get("session"):
+            if reported["session"] >= 2:
+                continue
+            reported["session"] += 1
+            small = shrink_session(c)
+            f = session_fails(small)
+            k, what, rr = f if f is not None else (None, w, run_session_safe(small))
+            calls = [{kk: st.get(kk) for kk in CANON_KEYS + ("keep", "single_first", "fail_first", "k")} for st in small["steps"]]
+            ctx.violation("real output violates C11 in a sequence of calls on one database API: " + what.split(":")[0],
+                          {"case": small, "calls": calls, "failing_call_index": k, "observed": rr,
+                           "expected_partitions_per_call": [oracle(st) for st in small["steps"]] if max(len(st["ids"]) for st in small["steps"]) <= 40 else None, "detail": what},
+                          kind="concrete", match_info={"failure": what.split(":")[0], "session": True})
+            continue
+        if reported["single"] >= 3:
+            continue
+        reported["single"] += 1
+        small = simplify(c, impl_fails)
         rr = run_impl_safe(small)
-        what = (verdict(small, rr) if "__error__" not in rr else f"real code raised {rr['__error__']}: {rr['text'][:200]}") or w
+        what = (call_verdict(small, rr) if "__error__" not in rr else f"real code raised {rr['__error__']}: {rr['text'][:200]}") or w
         ctx.violation("real output violates C11: " + what.split(":")[0],
                       {"case": small, "observed": rr, "expected_partitions": oracle(small) if len(small["ids"]) <= 40 else None, "detail": what},
                       kind="concrete", match_info={"failure": what.split(":")[0]})
